@@ -118,8 +118,8 @@ CLAIMS["C14"] = dict(
    text="The real `free` and `space` commands run on an in-memory Acorn DFS disc with a symbolic catalogue (entry count constant per query: 0 and 2 "
         "quick, 0..3 thorough; start sectors, lengths and total sector count symbolic, catalogue well-formed): sectors used + sectors free = "
         "total, used counts the catalogue plus every sector of every file exactly once, `space` lists exactly the gaps between files and their sum "
-        "equals the free total.",
-   note="Watford/Opus/HDFS catalogues are covered for `free` only through catalog_sectors(); more than 3 files outside the bound; std::vector<unsigned> growth replaced by a fixed-capacity model",
+        "equals the free total; Catalog::map_sectors attributes to the catalogue and to each file exactly its sectors and nothing to zero-length files.",
+   note="Watford/Opus/HDFS catalogues, the sector-map rendering and extract-unused's span loop are outside the claim (no verdict for the Watford variant, DESIGN.md 10); more than 3 files outside the bound; std::vector<unsigned> growth replaced by a fixed-capacity model",
    ref="5 C14 / 10", tech=TECH_CXX)
 CLAIMS["C18"] = dict(
    text="--verbose adds text on standard error only: smells_like_watford (format probing) and hexdump_bytes run with the flag off and on over the "
